@@ -189,6 +189,32 @@ where T: Ring + Bridge, for<'x> &'x T: RingOps<T> {
         }
     }
 
+    // folds and small derived operations of the ring traits: AddMon::sum, Mon::product (over values and over
+    // references), Ring::from_sign, is_pm_one — judged only when the exact result is representable
+    if good && !overflowed {
+        let (so, po) = (pool_o.iter().fold(T::O::o0(), |a, x| a.add(x)), pool_o.iter().fold(T::O::o1(), |a, x| a.mul(x)));
+        let pool2 = pool.clone();
+        if po.bits() < 12_000 {
+            if let (Ok(Some(_)), Ok(Some(_))) = (guarded(|| T::try_from_o(&so)), guarded(|| T::try_from_o(&po))) {
+                match guarded(move || (T::sum(pool2.iter()), T::sum(pool2.clone()), T::product(pool2.iter()), T::product(pool2.clone()))) {
+                    Ok((s1, s2, p1, p2)) => {
+                        if s1.to_o() != so || s2.to_o() != so || p1.to_o() != po || p2.to_o() != po {
+                            good = false;
+                            ctx.violation(&format!("C14/{tname}/sum-product"), &format!("sum / product over the pool differ from the ring: sum {} / {} (expected {}), product {} / {} (expected {})", s1.to_o().show(), s2.to_o().show(), so.show(), p1.to_o().show(), p2.to_o().show(), po.show()), json!({"type": tname, "history": hist}));
+                        }
+                    }
+                    Err(p) => { if !(T::bounded() && p.is_overflow()) { good = false; ctx.violation(&format!("C14/{tname}/sum-product-panic"), &format!("sum / product panicked: {}", p.brief()), json!({"type": tname, "history": hist})); } }
+                }
+            }
+        }
+        if good {
+            let (ps, ms) = (T::from_sign(yui::Sign::Pos), T::from_sign(yui::Sign::Neg));
+            let pm_ok = ps.to_o() == T::O::o1() && ms.to_o() == T::O::o1().neg() && ps.is_pm_one() && ms.is_pm_one()
+                && pool.iter().zip(pool_o.iter()).all(|(x, o)| x.is_pm_one() == (o.is1() || o.neg().is1()));
+            if !pm_ok { good = false; ctx.violation(&format!("C14/{tname}/from-sign-pm-one"), "from_sign / is_pm_one disagree with the ring elements +1, -1", json!({"type": tname, "history": hist})); }
+        }
+    }
+
     // Zero / One constants
     if good && (!T::zero().is_zero() || !T::one().is_one() || T::zero().to_o() != T::O::o0() || T::one().to_o() != T::O::o1()) {
         good = false;
